@@ -19,6 +19,6 @@ func main() {
 		{Name: "repl-drop-3n-3tx-1fault", Cfg: "MC_Repl_drop.cfg", Timeout: 10 * time.Minute, MaxKeep: core.Pick(args, 70, 500), Need: "Drop"},
 	})
 	// failure paths (spec/Faults.tla): every call of the operation through the OS interface fails once
-	faults.Run(rep, args, faults.Select{Ops: []string{"drop", "replica_apply"}, Monitors: []string{"effect", "replica-image"}, Kinds: []string{"error"}})
+	faults.Run(rep, args, faults.Select{Ops: []string{"drop"}, Monitors: []string{"effect"}})
 	rep.Finish()
 }
